@@ -26,8 +26,10 @@ import numpy as np
 from .. import exprs as E
 from .. import gen, leanio, pymodel
 
-LEGACY_EXACT_COUNTS = False   # True: model `_addJumpsBetweenTime` exact branch as np.histogram(t, bins) unweighted
-LEGACY_STATE_LIMS = False     # True: model `_state_lims` as one entry per declared entry (range names unexpanded)
+import os
+_LEGACY = os.environ.get("VERIF_STOCH_LEGACY", "")    # e.g. VERIF_STOCH_LEGACY=counts,lims  (development aid only)
+LEGACY_EXACT_COUNTS = "counts" in _LEGACY   # True: model `_addJumpsBetweenTime` exact branch as np.histogram(t, bins) unweighted
+LEGACY_STATE_LIMS = "lims" in _LEGACY       # True: model `_state_lims` as one entry per declared entry (range names unexpanded)
 
 MAX_STEPS = 300
 RATE_CAP = 2000.0      # total event rate beyond which a run is cut (the properties are about bounded-rate models)
